@@ -23,6 +23,8 @@ type replayer struct {
 	buildEr error
 	mu      sync.Mutex
 	n       int
+	race    *replayer
+	isRace  bool
 }
 
 type replayOut struct {
@@ -51,6 +53,9 @@ func (o *replayOut) summary() string {
 func (o *replayOut) reproduces(f Failure) bool {
 	switch f.Kind {
 	case "assert":
+		if strings.HasPrefix(f.AssertID, "C18.") && strings.Contains(o.raw, "DATA RACE") {
+			return true
+		}
 		return o.failed[f.AssertID]
 	case "panic":
 		return o.panicked
@@ -67,7 +72,12 @@ func newReplayer(p *Program) *replayer {
 	return &replayer{p: p, dir: dir}
 }
 
-func (r *replayer) cleanup() { os.RemoveAll(r.dir) }
+func (r *replayer) cleanup() {
+	os.RemoveAll(r.dir)
+	if r.race != nil {
+		os.RemoveAll(r.race.dir)
+	}
+}
 
 func goEnv() []string {
 	return append(os.Environ(), "GOFLAGS=-mod=mod", "GOPROXY=off", "GOSUMDB=off", "GOTOOLCHAIN=local")
@@ -89,7 +99,7 @@ func (r *replayer) build() error {
 	os.WriteFile(ovPath, b, 0o644)
 	r.bin = filepath.Join(r.dir, "replay")
 	args := []string{"build", "-tags", "verif", "-overlay", ovPath, "-o", r.bin}
-	if os.Getenv("VERIF_RACE") != "" {
+	if os.Getenv("VERIF_RACE") != "" || r.isRace {
 		args = append(args, "-race")
 	}
 	args = append(args, "./internal/verifmain")
@@ -104,6 +114,15 @@ func (r *replayer) build() error {
 }
 
 func (r *replayer) replay(hs HarnessSpec, model map[string]string, kind string) (*replayOut, error) {
+	if hs.Cfg["race"] == "1" && !r.isRace {
+		r.mu.Lock()
+		if r.race == nil {
+			r.race = &replayer{p: r.p, dir: r.dir + "_race", isRace: true}
+		}
+		rr := r.race
+		r.mu.Unlock()
+		return rr.replay(hs, model, kind)
+	}
 	if err := r.build(); err != nil {
 		return nil, err
 	}
@@ -155,10 +174,10 @@ func runReplay(bin, path string, timeout time.Duration) (*replayOut, error) {
 			return out, fmt.Errorf("%s", l)
 		}
 	}
+	if strings.Contains(string(outb), "DATA RACE") {
+		return out, nil
+	}
 	if err != nil && !out.panicked && !out.done && !out.assumeFailed {
-		if strings.Contains(string(outb), "DATA RACE") {
-			return out, nil
-		}
 		return out, fmt.Errorf("replay binary: %v: %s", err, truncStr(string(outb), 400))
 	}
 	return out, nil
